@@ -68,7 +68,10 @@ FILES = ['a.json', 'b.json', 'c.json']
 NAMES = ['p', 'q', 'r']
 INVALID_KINDS = ['bad_json', 'top_list', 'policy_scalar', 'preset_scalar',
                  'bad_object_type', 'bad_operation', 'bad_permission',
-                 'bad_section', 'mixed_sections']
+                 'bad_section', 'mixed_sections', 'permission_list',
+                 'permission_object', 'permission_number', 'permission_null',
+                 'operations_scalar', 'operations_list', 'group_scalar',
+                 'groups_list']
 OTS = ['SYMMETRIC_KEY', 'PUBLIC_KEY', 'CERTIFICATE', 'SECRET_DATA']
 OPS = ['GET', 'LOCATE', 'DESTROY', 'ACTIVATE', 'GET_ATTRIBUTES']
 PERMS = ['ALLOW_ALL', 'ALLOW_OWNER', 'DISALLOW_ALL']
@@ -132,6 +135,22 @@ def invalid_text(kind, good, pos=0):
         sec[ot]['TELEPORT'] = 'ALLOW_ALL'
     elif kind == 'bad_permission':
         sec[ot][sorted(sec[ot])[0]] = 'ALLOW_SOME'
+    elif kind in ('permission_list', 'permission_object',
+                  'permission_number', 'permission_null'):
+        # the one position of a policy where an enumeration name is a
+        # JSON value, not a key: any JSON type can stand there
+        sec[ot][sorted(sec[ot])[0]] = {
+            'permission_list': ['ALLOW_ALL'], 'permission_object':
+            {'ALLOW_ALL': True}, 'permission_number': 1,
+            'permission_null': None}[kind]
+    elif kind == 'operations_scalar':
+        sec[ot] = 'ALLOW_ALL'
+    elif kind == 'operations_list':
+        sec[ot] = [['GET', 'ALLOW_ALL']]
+    elif kind == 'group_scalar':
+        doc[first] = {'groups': {'g1': 7}}
+    elif kind == 'groups_list':
+        doc[first] = {'groups': [sec]}
     elif kind == 'bad_section':
         doc[first] = {'presets': sec}
     elif kind == 'mixed_sections':
